@@ -56,6 +56,9 @@ type Node struct {
 	// Tag0: a tagged body also has a tag in front of its first form (the
 	// "do this again" idiom; seeded change C07-k2)
 	Tag0 bool `json:"tag0,omitempty"`
+	// Zero: the loop does not iterate (empty list / vector, a count of zero
+	// or less, an end test that holds at once); only its result form runs
+	Zero bool `json:"zero,omitempty"`
 	// CKid: the last kid of an unwind-protect is one of its cleanup forms
 	CKid bool `json:"c_kid,omitempty"`
 }
@@ -361,6 +364,7 @@ func (g *genCtx) node(depth int) Node {
 					// nil block, outside the body)
 					n.ResKid = true
 					n.Kids = append(n.Kids, g.node(depth-1))
+					n.Zero = g.r.Pct(35) // seeded change C07-l2: a shortcut for loops that do not iterate
 				}
 			}
 			g.blocks = g.blocks[:len(g.blocks)-1]
@@ -569,17 +573,25 @@ func (n *Node) render(dir string, b *strings.Builder) {
 			}
 			body = seq(parts)
 		}
-		head := fmt.Sprintf("dolist (e%d '(1 2)%s)", n.ID, res)
+		items, count, first := "'(1 2)", "2", "0"
+		if n.Zero {
+			items, count, first = "'()", []string{"0", "-1"}[n.ID%2], "2"
+		}
+		head := fmt.Sprintf("dolist (e%d %s%s)", n.ID, items, res)
 		switch n.K {
 		case "dotimes":
-			head = fmt.Sprintf("dotimes (i%d 2%s)", n.ID, res)
+			head = fmt.Sprintf("dotimes (i%d %s%s)", n.ID, count, res)
 		case "dovector":
-			head = fmt.Sprintf("dovector (e%d (vector 1 2)%s)", n.ID, res)
+			vec := "(vector 1 2)"
+			if n.Zero {
+				vec = "(vector)"
+			}
+			head = fmt.Sprintf("dovector (e%d %s%s)", n.ID, vec, res)
 		case "do", "dostar":
 			if res == "" {
 				res = " 'done"
 			}
-			head = fmt.Sprintf("do ((dv%d 0 (1+ dv%d)) (dw%d 5)) ((>= dv%d 2)%s)", n.ID, n.ID, n.ID, n.ID, res)
+			head = fmt.Sprintf("do ((dv%d %s (1+ dv%d)) (dw%d 5)) ((>= dv%d 2)%s)", n.ID, first, n.ID, n.ID, n.ID, res)
 			if n.K == "dostar" {
 				head = "do*" + head[2:]
 			}
@@ -1318,9 +1330,9 @@ func (e *engine) Shrink(raw json.RawMessage) (out []json.RawMessage) {
 			nn.NilVal = false
 			emit(replace(path, nn))
 		}
-		if n.ResKid || n.CKid || (n.Tag0 && !hasGoTo(&c.Prog)) {
+		if n.ResKid || n.CKid || n.Zero || (n.Tag0 && !hasGoTo(&c.Prog)) {
 			nn := cloneNode(*n)
-			nn.ResKid, nn.CKid, nn.Tag0 = false, false, false
+			nn.ResKid, nn.CKid, nn.Tag0, nn.Zero = false, false, false, false
 			emit(replace(path, nn))
 		}
 		if n.Direct || n.Sym {
